@@ -58,6 +58,11 @@ def rewrite_case(rng, text, names):
         if lw in CONNECTIVES or lw in MONTHS or lw in ZONES or lw in currencies() or lw in names:
             if lw in ("m", "k"):
                 return w
+            if lw == "in":
+                # 'in' is also the unit inch: behind a number or a conversion word it is a unit word, whose case is left alone
+                before = text[:m.start()].rstrip().lower()
+                if before[-1:].isdigit() or before.split()[-1:] in (["to"], ["as"], ["into"], ["in"]):
+                    return w
             return recase(rng, w)
         return w
     return WORD.sub(rep, text)
